@@ -32,6 +32,10 @@ lib_init(void)
 	p.num_resolver_threads = 1;
 	va_install(&p);
 	va_choice = 1;
+	if (getenv("C20_LOG")) { // investigation aid: library log on stderr of a replay
+		nng_log_set_logger(nng_stderr_logger);
+		nng_log_set_level(NNG_LOG_DEBUG);
+	}
 	int rv    = nng_init(&p);
 	if (rv == 0) {
 		inited = 1;
@@ -269,6 +273,28 @@ prog_xchg(void *arg)
 	}
 	NET(nng_dial(b, url, NULL, 0), ok);
 	vs_settle();
+	if (!ok) {
+		// the connection attempt was lost to the injected failure ("best-effort loss of one
+		// connection").  Neither end may be left unable to connect: with the allocator
+		// healthy again the same dial succeeds within 5 virtual seconds (one accept cool-down
+		// or reconnect interval at most lies in between).
+		int save = va_choice, rv = -1;
+		va_choice = 0;
+		for (int t = 0; t < 50 && rv != 0; t++) {
+			rv = nng_dial(b, url, NULL, 0);
+			if (rv != 0)
+				vs_sleep(100);
+		}
+		if (rv != 0)
+			vs_fail("C20:wedged-after-failure",
+			    "after the dial that hit the injected failure, 50 further nng_dial calls "
+			    "over 5 s all failed (last: %s): the listener no longer accepts or the "
+			    "dialing socket cannot connect any more; injected=%ld site %s",
+			    nng_strerror(rv), va_failed, va_failed_site);
+		va_choice = save;
+		ok        = 1;
+		vs_settle();
+	}
 	if (ok) {
 		int s1, r1;
 		switch (x->kind) {
@@ -382,6 +408,41 @@ prog_xchg(void *arg)
 			vs_fail("C20:wedged-after-failure",
 			    "no message gets from one socket to the other any more (50 "
 			    "attempts over 5 s), injected=%ld site %s",
+			    va_failed, va_failed_site);
+		va_choice = save;
+	}
+	if (ok && (x->kind == X_REQREP || x->kind == X_SURVEY)) {
+		// the request/reply pairs: whatever was lost above, a fresh request is answered
+		// within 5 virtual seconds with the allocator healthy
+		int save = va_choice, through = 0;
+		va_choice = 0;
+		nng_socket_set_ms(a, NNG_OPT_RECVTIMEO, 100);
+		nng_socket_set_ms(b, NNG_OPT_RECVTIMEO, 100);
+		for (int t = 0; t < 25 && !through; t++) {
+			nng_msg *m;
+			if (nng_msg_alloc(&m, 0) != 0 || nng_msg_append(m, "rq2", 3) != 0)
+				vs_fail("harness:burst", "message allocation");
+			if (nng_sendmsg(b, m, 0) != 0) {
+				nng_msg_free(m);
+				continue;
+			}
+			if (nng_recvmsg(a, &m, 0) != 0)
+				continue;
+			int good = nng_msg_len(m) == 3 && memcmp(nng_msg_body(m), "rq2", 3) == 0;
+			nng_msg_clear(m);
+			if (!good || nng_msg_append(m, "rp2", 3) != 0 || nng_sendmsg(a, m, 0) != 0) {
+				nng_msg_free(m);
+				continue;
+			}
+			if (nng_recvmsg(b, &m, 0) != 0)
+				continue;
+			through = nng_msg_len(m) == 3 && memcmp(nng_msg_body(m), "rp2", 3) == 0;
+			nng_msg_free(m);
+		}
+		if (!through)
+			vs_fail("C20:wedged-after-failure",
+			    "no request is answered any more (25 attempts over 5 s), injected=%ld "
+			    "site %s",
 			    va_failed, va_failed_site);
 		va_choice = save;
 	}
